@@ -41,6 +41,7 @@ type World struct {
 	failed        bool
 	initialAlloc  bool
 	delayReleases bool
+	holdReleases  bool // every release is delivered later (the scenario decides when)
 	regTotal      int // registered so far (alive or not)
 	roster        []string
 	pending       []pendingRelease // releases a table has been told to make but has not delivered yet
@@ -489,7 +490,7 @@ func (w *World) sync(id string, out int) bool {
 	if broken {
 		w.dead = append(w.dead, id)
 	}
-	if (len(released) > 0 || broken) && w.delayReleases && w.rng.Intn(3) == 0 {
+	if (len(released) > 0 || broken) && (w.holdReleases || w.delayReleases && w.rng.Intn(3) == 0) {
 		// the table delivers its release a little later (other tables report in between)
 		if w.transit == nil {
 			w.transit = map[string]bool{}
@@ -614,6 +615,9 @@ func runWorldHistory(w *World, r *rand.Rand, withSweep bool) {
 			if w.status == 1 && r.Intn(8) == 0 {
 				w.setStatus(0) // the competition is paused (back to pending) and resumed later
 				w.rep.Inc("class_paused")
+			} else if w.status == 0 && w.nextT > 0 && r.Intn(4) == 0 {
+				w.setStatus(2) // the deadline passes while the competition is on hold
+				w.rep.Inc("class_deadline_while_on_hold")
 			} else if w.status < 2 && (w.status == 0 || r.Intn(3) == 0) {
 				w.setStatus(w.status + 1)
 			}
@@ -640,6 +644,61 @@ func runWorldHistory(w *World, r *rand.Rand, withSweep bool) {
 		if w.status == 0 && r.Intn(2) == 0 {
 			w.setStatus(1) // resume before looking for the fixpoint - or look for it while registration is on hold
 		}
+		w.sweepCheck()
+	}
+	if !w.failed {
+		w.rep.Seen("nontrivial", fmt.Sprint(w.max, w.min, w.trace))
+	}
+}
+
+// a tournament that is put on hold with releases still on their way, takes late registrants while on
+// hold, passes its registration deadline on hold, and only then gets the releases - then random play
+func runWorldHoldDeadline(w *World, r *rand.Rand, withSweep bool) {
+	defer func() {
+		if e := recover(); e != nil {
+			w.fail(w.prop+"/panic", "regulator", fmt.Sprintf("the regulator panicked: %v", e))
+		}
+	}()
+	w.rep.Inc("histories")
+	w.rep.Inc("hold_and_deadline_scenarios")
+	w.add(w.max*(2+r.Intn(4)) + r.Intn(w.max))
+	w.setStatus(1)
+	w.holdReleases = true
+	for k := 2 + r.Intn(4); k > 0 && len(w.order) > 0 && !w.failed; k-- {
+		id := w.order[r.Intn(len(w.order))]
+		w.sync(id, r.Intn(4))
+		w.check("sync")
+	}
+	w.holdReleases = false
+	if w.failed {
+		return
+	}
+	w.setStatus(0)
+	w.rep.Inc("class_paused")
+	for k := 1 + r.Intn(3); k > 0 && !w.failed; k-- {
+		w.add(1 + r.Intn(2*w.max))
+	}
+	if r.Intn(3) != 0 {
+		w.setStatus(2)
+		w.rep.Inc("class_deadline_while_on_hold")
+	} else {
+		w.setStatus(1)
+	}
+	w.deliverPending(true)
+	w.check("release")
+	for s := 0; s < 6 && !w.failed && len(w.order) > 0; s++ {
+		w.sync(w.order[r.Intn(len(w.order))], r.Intn(3))
+		w.check("sync")
+		if len(w.pending) > 0 {
+			w.deliverPending(false)
+			w.check("release")
+		}
+	}
+	if len(w.pending) > 0 && !w.failed {
+		w.deliverPending(true)
+		w.check("release")
+	}
+	if withSweep && !w.failed && len(w.tables) > 0 {
 		w.sweepCheck()
 	}
 	if !w.failed {
